@@ -294,13 +294,81 @@ Fixpoint run_wire (layer : Z) (pwpool idpool : list (list Z)) (c : cst) (gs : li
       end
   end.
 
+(* ------------------------------------------------------------------ the loader and tables of any size
+   cache.fillUHash / userecRawAddToUHash (cache/uhash_loader.go): which records of .PASSWDS enter the user-id index
+   when it is built from the file. A record whose id IsValid always does; of the others (free slots, kept on the
+   chain of the empty id for new registrations) only the first PRE_ALLOCATED_USERS do. [inv] = the loader's counter
+   uHashLoaderInvalidUserID before the record. With the default constants (MAX_USERS = 50) the limit is never
+   reached; the production build (-tags docker, MAX_USERS = 2 000 000) reaches it, and the harness runs that build
+   on files of a few thousand records (fillUHash reads to the end of the file, whatever MAX_USERS is). *)
+Definition PREALLOC : nat := Z.to_nat cache.PRE_ALLOCATED_USERS.
+Fixpoint indexed (pre inv : nat) (recs : list acct) : list bool :=
+  match recs with
+  | [] => []
+  | a :: r => if id_valid (a_id a) then true :: indexed pre inv r
+              else (S inv <=? pre)%nat :: indexed pre (S inv) r
+  end.
+(* SearchUserRaw / DoSearchUserRaw("") as they can answer with that index: only records that are in it *)
+Definition lookup_ix (ix : list bool) (sl : list acct) (id : list Z) : option nat :=
+  if is_empty id then None else find_idx (fun p : bool * acct => fst p && ci_eqb (a_id (snd p)) id) (combine ix sl).
+Definition find_empty_ix (ix : list bool) (sl : list acct) : option nat :=
+  find_idx (fun p : bool * acct => fst p && is_empty (a_id (snd p))) (combine ix sl).
+
+(* a table given sparsely: account i of [accts] sits in record [nth i pos] (0-based) of an otherwise empty file *)
+Fixpoint place (pos : list Z) (accts : list acct) (sl : list acct) : list acct :=
+  match pos, accts with
+  | p :: pr, a :: ar => place pr ar (set_nth (Z.to_nat p) a sl)
+  | _, _ => sl
+  end.
+
+Definition numbered {A} (l : list A) : list (nat * A) := combine (seq 0 (length l)) l.
+(* the records (numbered from 1) that an index leaves out *)
+Definition missing (ix : list bool) : list Z :=
+  flat_map (fun p : nat * bool => if snd p then [] else [Z.of_nat (S (fst p))]) (numbered ix).
+(* the index a server start builds from the table *)
+Definition load (sl : list acct) : list bool := indexed PREALLOC 0 sl.
+
+(* what the harness reads back on a big table: the non-empty records (number, id, verifying pool passwords, e-mail),
+   the uid the index answers for every name of the id pool - [ix] is the index as last built: a record is found only
+   if it was put in then (registrations since went to records that were) -, and after -5 the records of the file
+   that are not in the index *)
+Definition observe_big (pwpool idpool : list (list Z)) (c : cst) (ix : list bool) (ms : list Z) : list Z :=
+  let live := filter (fun p : nat * acct => negb (is_empty (a_id (snd p)))) (numbered (slots c)) in
+  lenZ live ::
+  flat_map (fun p : nat * acct => Z.of_nat (S (fst p)) :: enc_str (a_id (snd p)) ++ [mask pwpool (a_pw (snd p))] ++ enc_str (a_email (snd p))) live
+  ++ map (fun n => match lookup_ix ix (slots c) (cid n) with Some k => Z.of_nat (S k) | None => 0 end) idpool
+  ++ [-5] ++ ms.        (* ms = missing ix, computed once per load *)
+
+(* operations as in [run_wire]; [9] = cache.LoadUHash on the running server (the index is brought up to date from
+   the file: nothing leaves it, and the loader's rule is applied to the table as it is now) *)
+Fixpoint run_wire_big (layer : Z) (pwpool idpool : list (list Z)) (c : cst) (ix : list bool) (gs : list (list Z)) : list Z :=
+  match gs with
+  | [] => []
+  | [9] :: r => let ix' := load (slots c) in
+                [-1] ++ enc_result (ROk []) ++ observe_big pwpool idpool c ix' (missing ix') ++ run_wire_big layer pwpool idpool c ix' r
+  | g :: r =>
+      match parse_op g with
+      | None => [-9]
+      | Some o =>
+          let (x, c1) := if layer =? 0 then step c o else api_step c o in
+          [-1] ++ enc_result x ++ observe_big pwpool idpool c1 ix (missing ix) ++ run_wire_big layer pwpool idpool c1 ix r
+      end
+  end.
+
 (* case: [[1]; [layer; throttle]; password pool; id pool; reserved ids; initial slots] ++ operations
-   result: 0 :: per operation (-1 :: result ++ observation) *)
+   result: 0 :: per operation (-1 :: result ++ observation)
+   case: [[2]; [layer; throttle]; password pool; id pool; reserved ids; n :: positions; initial accounts] ++ operations
+   - a file of n records, built as above; result: 0 :: observation after the load :: per operation as above *)
 Definition run_case (args : list (list Z)) : list Z :=
   match args with
   | [1] :: [layer; thr] :: pwpool :: idpool :: resv :: init :: gs =>
       let n := Z.to_nat ptttype.MAX_USERS in
       let sl := firstn n (mk_slots n (strs init) ++ repeat no_acct n) in
       ST_OK :: run_wire layer (strs pwpool) (strs idpool) (mkC sl (strs resv) (negb (thr =? 0))) gs
+  | [2] :: [layer; thr] :: pwpool :: idpool :: resv :: (n :: pos) :: init :: gs =>
+      let sl := place pos (mk_slots (length pos) (strs init)) (repeat no_acct (Z.to_nat n)) in
+      let c := mkC sl (strs resv) (negb (thr =? 0)) in
+      let ix := load sl in
+      ST_OK :: observe_big (strs pwpool) (strs idpool) c ix (missing ix) ++ run_wire_big layer (strs pwpool) (strs idpool) c ix gs
   | _ => [ST_BADCASE]
   end.
